@@ -1040,6 +1040,224 @@ def check_ms_mpe(ctx):
                     ctx.fail("oracle", "a second mpe of %s with the same arguments gives a different result" % name, case, key="C15:mpe:not-repeatable")
 
 
+# ----------------------------------------------------------------------------------------------- forms of fs
+FS_FORMS = {
+    "int": lambda: int(FS), "float": lambda: float(FS), "np.float64": lambda: np.float64(FS), "np.float32": lambda: np.float32(FS),
+    "0-d float array": lambda: np.array(float(FS)), "0-d int array": lambda: np.array(int(FS)),
+}
+FS_TEMPLATES = [  # algorithms added BEFORE a preprocessing step are run AFTER it
+    [["add", 0], ["pre", "dec"], ["add", 1], ["run", 0], ["run", 1]],
+    [["add", 0], ["pre", "fil"], ["pre", "dec"], ["add", 1], ["pre", "det"], ["runall"]],
+    [["add", 0], ["pre", "det"], ["add", 1], ["pre", "fil"], ["run", 1], ["run", 0], ["pre", "dec"], ["run", 0], ["runall"]],
+    [["add", 0], ["add", 1], ["pre", "dec"], ["run", 1], ["pre", "det"], ["add", 1], ["runall"]],
+]
+FS_CLASSES = {"single": ["FDD", "pLSCF", "SSIcov", "EFDD", "SSIdat", "FSDD"],
+              "preger": ["FDD_MS", "pLSCF_MS", "EFDD_MS", "SSIcov_MS", "SSIdat_MS"]}
+
+
+def _make_alg(cn, name):
+    import pyoma2.algorithms as _alg
+    base = cn[:-3] if cn.endswith("_MS") else cn
+    kw = copy.deepcopy(PARAMS[base][0])
+    if cn.endswith("_MS"):
+        kw.pop("ref_ind", None)
+    return getattr(_alg, cn)(name=name, **kw)
+
+
+def _make_setup(kind, fs):
+    from pyoma2.setup import MultiSetup_PreGER
+    if kind == "single":
+        return SingleSetup(W.base.copy(), fs=fs)
+    return MultiSetup_PreGER(fs=fs, ref_ind=[[0, 1], [0, 1]], datasets=[W.base.copy(), W.base2.copy()])
+
+
+def _preprocess(ss, what):
+    if what == "dec":
+        ss.decimate_data(q=2)
+    elif what == "det":
+        ss.detrend_data()
+    else:
+        ss.filter_data(Wn=3.0, order=4)
+
+
+def check_fs_forms(ctx, cases):
+    """the sampling frequency in every form the constructors accept (int, float, numpy scalars, 0-d arrays): an algorithm
+    added before a preprocessing call and run after it keeps the data AND fs / dt it was given at add time (bit-equal), its
+    result equals an isolated run (fresh setup, same preprocessing before the add, that algorithm alone, run at once), and the
+    caller's fs object is never changed"""
+    iso_cache = {}
+
+    def iso(kind, form, prefix, cn):
+        key = (kind, form, tuple(prefix), cn)
+        if key not in iso_cache:
+            ss = _make_setup(kind, FS_FORMS[form]())
+            for what in prefix:
+                _preprocess(ss, what)
+            alg = _make_alg(cn, "iso")
+            ss.add_algorithms(alg)
+            ss.run_by_name("iso")
+            iso_cache[key] = alg.result
+        return iso_cache[key]
+
+    for kind, form, classes, template in cases:
+        case = dict(kind="fs form", setup=kind, fs_form=form, classes=classes, calls=template)
+        ctx.count(case)
+        ctx.hist("fs form", "%s/%s" % (kind, form))
+        fs_obj = FS_FORMS[form]()
+        fs_keep = (type(fs_obj).__name__, dg(fs_obj), repr(fs_obj))
+        try:
+            ss = _make_setup(kind, fs_obj)
+        except Exception as e:  # noqa: BLE001
+            ctx.fail("oracle", "%s setup refuses fs given as %s: %s" % (kind, form, type(e).__name__), case, key="C15:fs:raised")
+            continue
+        prefix, bound, failed = [], {}, False
+        for n, step in enumerate(template):
+            try:
+                if step[0] == "add":
+                    nm = "a%d" % step[1]
+                    alg = _make_alg(classes[step[1]], nm)
+                    ss.add_algorithms(alg)
+                    bound[nm] = dict(cls=classes[step[1]], prefix=list(prefix), data=dg(alg.data),
+                                     fs=(type(alg.fs).__name__, dg(alg.fs), repr(alg.fs)), dt=(type(alg.dt).__name__, dg(alg.dt), repr(alg.dt)))
+                elif step[0] == "pre":
+                    _preprocess(ss, step[1])
+                    prefix.append(step[1])
+                elif step[0] == "run":
+                    ss.run_by_name("a%d" % step[1])
+                else:
+                    ss.run_all()
+            except Exception as e:  # noqa: BLE001
+                if step == ["pre", "fil"] and isinstance(ss.fs, np.ndarray) and isinstance(e, ValueError):
+                    # pristine behaviour, outside this property: scipy.signal.butter refuses a 0-d array as fs ("Sampling frequency
+                    # fs must be a single scalar"), so filter_data raises while setup.fs still is the caller's array; the call must
+                    # then have changed nothing (checked below) and the history goes on without it
+                    ctx.not_judged += 1
+                    ctx.note("filter_data with fs given as a 0-d ndarray raises ValueError (SciPy refuses a 0-d array as fs): call not judged")
+                else:
+                    ctx.fail("oracle", "call %d %s raised %s (%s) with fs given as %s" % (n, step, type(e).__name__, str(e)[:80], form),
+                             dict(case, call=n), key="C15:fs:raised")
+                    failed = True
+                    break
+            now = (type(fs_obj).__name__, dg(fs_obj), repr(fs_obj))
+            if now != fs_keep:
+                ctx.fail("oracle", "call %d %s changed the caller's fs object: %s -> %s" % (n, step, fs_keep[2], now[2]), dict(case, call=n),
+                         key="C15:fs:caller-object-changed")
+            for nm, b in bound.items():
+                alg = ss.algorithms[nm]
+                got = dict(data=dg(alg.data), fs=(type(alg.fs).__name__, dg(alg.fs), repr(alg.fs)), dt=(type(alg.dt).__name__, dg(alg.dt), repr(alg.dt)))
+                bad = [f for f in ("data", "fs", "dt") if got[f] != b[f]]
+                if bad:
+                    ctx.fail("oracle", "call %d %s changed what %s (%s) was given when it was added: %s" % (
+                        n, step, nm, b["cls"], "; ".join("%s %s -> %s" % (f, b[f][2] if f != "data" else "array", got[f][2] if f != "data" else "other array")
+                                                      for f in bad)), dict(case, call=n), key="C15:fs:binding-changed")
+            ran = ["a%d" % step[1]] if step[0] == "run" else (list(ss.algorithms) if step[0] == "runall" else [])
+            for nm in ran:
+                b = bound[nm]
+                try:
+                    want = iso(kind, form, b["prefix"], b["cls"])
+                except Exception as e:  # noqa: BLE001
+                    ctx.fail("oracle", "the isolated run of %s with fs given as %s raised %s" % (b["cls"], form, type(e).__name__), case, key="C15:fs:raised")
+                    continue
+                out = []
+                got = ss.algorithms[nm].result
+                if dg(got) != dg(want) and not same(got, want, 0.0, out=out):
+                    ctx.fail("oracle", "result of %s (%s, added after %s, run at call %d) differs from the isolated run on the data and fs "
+                             "bound at add time: %s" % (nm, b["cls"], b["prefix"] or "no preprocessing", n, "; ".join(out)), dict(case, call=n),
+                             key="C15:fs:result-not-isolated-run")
+        if failed:
+            continue
+
+
+# ----------------------------------------------------------------------------------------------- persistence, every class
+def deep_state(obj):
+    """digest of everything an object carries (attributes recursively, arrays bit for bit) + the order of its algorithms"""
+    order = list(getattr(obj, "algorithms", {}) or {})
+    return (type(obj).__name__, dg(obj), order)
+
+
+def poser_view(po):
+    """what a PoSER object carries: names, reference indices, the setups and the merged results per algorithm name"""
+    try:
+        res = {k: {f: dg(v) for f, v in vars(r).items()} for k, r in po.result.items()}
+    except Exception as e:  # noqa: BLE001 - "You must run merge_results() first"
+        res = "%s: %s" % (type(e).__name__, e)
+    return dict(names=list(po.names), ref_ind=dg(po.ref_ind), setups=[deep_state(x) for x in po.setups], result=res)
+
+
+def check_persistence_classes(ctx, cases):
+    """save_to_file / load_from_file, pickle and copy.deepcopy of SingleSetup, MultiSetup_PreGER (after run + mpe) and
+    MultiSetup_PoSER (before and after merge_results): equal parameters and equal results, merged results included"""
+    import pickle
+
+    def build(kind, classes, merged):
+        if kind == "single":
+            ss = _make_setup("single", FS)
+            algs = [_make_alg(cn, "a%d" % i) for i, cn in enumerate(classes)]
+            ss.add_algorithms(*algs)
+            ss.run_all()
+            for a in algs:
+                ss.mpe(a.name, **copy.deepcopy(MPE[type(a).__name__][0]))
+            return ss
+        if kind == "preger":
+            ss = _make_setup("preger", FS)
+            algs = [_make_alg(cn, "a%d" % i) for i, cn in enumerate(classes)]
+            ss.add_algorithms(*algs)
+            ss.run_all()
+            for a in algs:
+                ss.mpe(a.name, **copy.deepcopy(MPE[type(a).__name__[:-3]][0]))
+            return ss
+        singles = []
+        for rec in (W.base, W.base2, W.base[::-1].copy())[:2 + len(classes) % 2]:
+            ss = SingleSetup(rec.copy(), fs=FS)
+            algs = [_make_alg(cn, "a%d" % i) for i, cn in enumerate(classes)]
+            ss.add_algorithms(*algs)
+            ss.run_all()
+            for a in algs:
+                ss.mpe(a.name, **copy.deepcopy(MPE[type(a).__name__][0]))
+            singles.append(ss)
+        po = MultiSetup_PoSER(ref_ind=[[0, 1] for _ in singles], single_setups=singles, names=["alg%d" % i for i in range(len(classes))])
+        if merged:
+            po.merge_results()
+        return po
+
+    path = os.path.join(ctx.work, "c15_persist.pkl")
+    ways = {"save_to_file/load_from_file": lambda o: (save_to_file(o, path), load_from_file(path))[1],
+            "save_to_file/load_from_file (pathlib.Path)": lambda o: (save_to_file(o, pathlib.Path(path)), load_from_file(pathlib.Path(path)))[1],
+            "pickle": lambda o: pickle.loads(pickle.dumps(o)), "copy.deepcopy": copy.deepcopy}
+    for kind, classes, merged in cases:
+        case = dict(kind="persistence", setup=kind, classes=classes, merge_results_called=bool(merged))
+        try:
+            obj = build(kind, classes, merged)
+        except Exception as e:  # noqa: BLE001 - e.g. a class whose results cannot be merged: not a persistence question
+            ctx.not_judged += 1
+            ctx.note("persistence case %s not built: %s %s" % (case, type(e).__name__, str(e)[:80]))
+            continue
+        view = poser_view if kind == "poser" else deep_state
+        before = view(obj)
+        for how, fn in ways.items():
+            ctx.count(dict(case, how=how))
+            ctx.hist("persistence", "%s/%s%s" % (kind, how, "/merged" if merged else ""))
+            try:
+                back = fn(obj)
+                got = view(back)
+            except Exception as e:  # noqa: BLE001
+                ctx.fail("oracle", "%s of a %s setup raised %s: %s" % (how, kind, type(e).__name__, str(e)[:80]), dict(case, how=how),
+                         key="C15:persist:raised")
+                continue
+            if view(obj) != before:
+                ctx.fail("oracle", "%s changed the %s setup that was saved" % (how, kind), dict(case, how=how), key="C15:persist:original-changed")
+            if got != before:
+                if kind == "poser":
+                    diff = [k for k in before if before[k] != got.get(k)]
+                    detail = "; ".join("%s: %s" % (k, got[k] if isinstance(got[k], str) else "differs") for k in diff)
+                else:
+                    detail = "attributes differ"
+                ctx.fail("oracle", "%s setup after %s does not carry equal parameters and results (%s)" % (kind, how, detail),
+                         dict(case, how=how), key="C15:persist:not-equal")
+    if os.path.exists(path):
+        os.remove(path)
+
+
 # ----------------------------------------------------------------------------------------------- persistence by name
 NAME_FAMILIES = [
     ["setup_fs12.5", "setup_fs12.8", "setup_fs12"],          # dotted names that differ only after the last dot
@@ -1249,6 +1467,28 @@ def run(ctx):
         sub = rng.choice(["", "", "d1/", "d.2/", "deep/er/"])
         fams.append(list(dict.fromkeys(sub + stem + sep + str(rng.randrange(1, 30)) + ext for _ in range(3))))
     check_persistence(ctx, [f for f in fams if len(f) >= 2])
+    # ---- persistence of every setup class; forms of fs (corpus cases first)
+    pcases, fcases = [], []
+    for path in sorted(glob.glob(os.path.join(VERIF, "corpus", "C15", "*.json"))):
+        doc = json.load(open(path))
+        pcases += [(c["setup"], c["classes"], c.get("merged", False)) for c in doc.get("persist_cases", [])]
+        fcases += [(c["setup"], c["fs_form"], c["classes"], c["calls"]) for c in doc.get("fs_cases", [])]
+    mergeable = ["EFDD", "FSDD", "SSIcov", "SSIdat", "pLSCF"]  # FDD results have no Xi: merge_results cannot merge them
+    for merged in (False, True):
+        for _ in range(ctx.n(2, 8)):
+            pcases.append(("poser", rng.sample(mergeable, rng.randint(1, 2)), merged))
+    pcases.append(("poser", ["FDD", rng.choice(mergeable)], False))
+    for _ in range(ctx.n(1, 4)):
+        pcases.append(("single", rng.sample(FS_CLASSES["single"], 2), False))
+        pcases.append(("preger", rng.sample(FS_CLASSES["preger"], 2), False))
+    check_persistence_classes(ctx, pcases)
+    for kind in ("single", "preger"):
+        for form in FS_FORMS:
+            for t, template in enumerate(FS_TEMPLATES):
+                if ctx.quick() and (t + len(form) + len(kind)) % 2 and t != 0:
+                    continue
+                fcases.append((kind, form, rng.sample(FS_CLASSES[kind], 2), template))
+    check_fs_forms(ctx, fcases)
 
     # ---- line-ups
     names = list(CLASSES)
